@@ -93,6 +93,8 @@ func runC18(c *Ctx) {
 	}
 	c18DFA(c)
 	c18PathScope(c, pk)
+	c18V1ExceptPairing(c)
+	c18DisableScope(c, pk)
 	info := pk.TypesInfo
 	fileOptNums := descriptorFieldNumbers(p, "FileOptions")
 	fieldOptNums := descriptorFieldNumbers(p, "FieldOptions")
@@ -593,4 +595,216 @@ func c18PathScope(c *Ctx, pk *packages.Package) {
 		})
 	}
 	c.Ob(rule, "no-string-prefix-on-paths", token.NoPos, n == 0, true, "%d string-prefix tests on file paths in bufimagemodify", n)
+}
+
+// c18V1ExceptPairing (V1-EXCEPT-PAIRING, round 2): a v1 managed-mode section `<option>: {except: [...], override:
+// {...}}` is translated by one helper call into disable rules (from except) and override rules (from override). The
+// two FileOption constants of each call must describe the section they are given: the override constant is
+// FileOption<Section>, and the except constant is the *whole* option that section governs - the same constant, or, for
+// a *_prefix section, the constant without "Prefix" when the option exists (java_package_prefix's except disables
+// java_package). A slip turns an `except` into a prefix-only disable that an override (or the default) for the full
+// option still beats: the excepted module's files are modified although the user exempted them.
+func c18V1ExceptPairing(c *Ctx) {
+	const rule = "V1-EXCEPT-PAIRING"
+	c.Rule(rule, "each v1 except/override section is translated with the FileOption constants of that section", 6)
+	p := c.P
+	pk := p.Pkg("private/bufpkg/bufconfig")
+	if pk == nil {
+		c.Fail(rule, "anchor", token.NoPos, "bufconfig not found")
+		return
+	}
+	info := pk.TypesInfo
+	constName := func(e ast.Expr) string {
+		if id := lastIdent(e); id != nil {
+			if cst, ok := info.Uses[id].(*types.Const); ok {
+				return cst.Name()
+			}
+		}
+		return ""
+	}
+	for _, fr := range p.FuncsOf(pk) {
+		if fr.Decl.Body == nil {
+			continue
+		}
+		ast.Inspect(fr.Decl.Body, func(n ast.Node) bool {
+			call, ok := n.(*ast.CallExpr)
+			if !ok || len(call.Args) != 4 {
+				return true
+			}
+			fn := Callee(info, call)
+			if fn == nil || fn.Pkg() != pk.Types {
+				return true
+			}
+			// shape: (FileOption, X.Except, FileOption, X.Override)
+			s1, ok1 := ast.Unparen(call.Args[1]).(*ast.SelectorExpr)
+			s3, ok3 := ast.Unparen(call.Args[3]).(*ast.SelectorExpr)
+			if !ok1 || !ok3 || s1.Sel.Name != "Except" || s3.Sel.Name != "Override" {
+				return true
+			}
+			exc, ovr := constName(call.Args[0]), constName(call.Args[2])
+			// the section: the external field the Except/Override holder was read from
+			section := ""
+			if holder := identObj(info, s1.X); holder != nil && holder == identObj(info, s3.X) {
+				ast.Inspect(fr.Decl.Body, func(m ast.Node) bool {
+					as, ok := m.(*ast.AssignStmt)
+					if ok && len(as.Lhs) == 1 && len(as.Rhs) == 1 && identObj(info, as.Lhs[0]) == holder {
+						if sel, ok := ast.Unparen(as.Rhs[0]).(*ast.SelectorExpr); ok {
+							section = sel.Sel.Name
+						}
+					}
+					return true
+				})
+			}
+			if section == "" {
+				c.Ob(rule, fr.Decl.Name.Name+"/"+exprString(call.Args[1]), call.Pos(), false, true, "the section behind %s could not be identified", exprString(call.Args[1]))
+				return true
+			}
+			wantOvr := "FileOption" + section
+			wantExc := wantOvr
+			if strings.HasSuffix(wantOvr, "Prefix") {
+				if _, ok := pk.Types.Scope().Lookup(strings.TrimSuffix(wantOvr, "Prefix")).(*types.Const); ok {
+					wantExc = strings.TrimSuffix(wantOvr, "Prefix")
+				}
+			}
+			ok = exc == wantExc && ovr == wantOvr
+			c.Ob(rule, fr.Decl.Name.Name+"/"+section, call.Pos(), ok, true, "section %s: except -> %s (want %s), override -> %s (want %s)", section, exc, wantExc, ovr, wantOvr)
+			return true
+		})
+	}
+}
+
+// c18DisableScope (DISABLE-SCOPE, round 2): a managed-mode disable rule may name a file option, a field option, or
+// neither (then it disables everything for the files it matches). Each consumer of GenerateManagedConfig.Disables() in
+// bufimagemodify decides whether a rule applies to the option it is about to modify; the decision is extracted from the
+// syntax and evaluated (bfeval: never run) for every combination of
+//
+//	rule.FileOption  ∈ {unspecified, the option being modified, another option}
+//	rule.FieldOption ∈ {unspecified, the option being modified, another option}
+//	fileMatchConfig  ∈ {true, false}
+//
+// and compared with the scope table: a file-option modifier obeys a rule iff the rule names no field option, names this
+// file option or none, and matches the file; a field-option modifier obeys a rule iff it names this field option, or
+// names nothing at all, and matches the file. In particular a rule that disables only a *file* option never exempts a
+// file from a *field* option override, and vice versa.
+func c18DisableScope(c *Ctx, pk *packages.Package) {
+	const rule = "DISABLE-SCOPE"
+	c.Rule(rule, "every consumer of the disable rules applies a rule exactly to the options it is scoped to", 2)
+	p := c.P
+	info := pk.TypesInfo
+	isDisablesCall := func(e ast.Expr) bool {
+		call, ok := ast.Unparen(e).(*ast.CallExpr)
+		if !ok {
+			return false
+		}
+		sel, ok := ast.Unparen(call.Fun).(*ast.SelectorExpr)
+		return ok && sel.Sel.Name == "Disables" && len(call.Args) == 0
+	}
+	states := []string{"unspecified", "this", "other"}
+	evalAll := func(inst string, pos token.Pos, side string, run func(atom func(ast.Expr) (tri, bool)) bfOutcome) {
+		var diffs []string
+		n := 0
+		for _, fileSt := range states {
+			for _, fieldSt := range states {
+				for _, match := range []bool{true, false} {
+					atom := func(e ast.Expr) (tri, bool) {
+						e = ast.Unparen(e)
+						if call, ok := e.(*ast.CallExpr); ok {
+							if fn := Callee(info, call); fn != nil && fn.Name() == "fileMatchConfig" {
+								return triOf(match), true
+							}
+							return triUnknown, false
+						}
+						bin, ok := e.(*ast.BinaryExpr)
+						if !ok || (bin.Op != token.EQL && bin.Op != token.NEQ) {
+							return triUnknown, false
+						}
+						acc, other := bin.X, bin.Y
+						if _, isCall := ast.Unparen(acc).(*ast.CallExpr); !isCall {
+							acc, other = other, acc
+						}
+						call, ok := ast.Unparen(acc).(*ast.CallExpr)
+						if !ok {
+							return triUnknown, false
+						}
+						sel, ok := ast.Unparen(call.Fun).(*ast.SelectorExpr)
+						if !ok {
+							return triUnknown, false
+						}
+						st := ""
+						switch sel.Sel.Name {
+						case "FileOption":
+							st = fileSt
+						case "FieldOption":
+							st = fieldSt
+						default:
+							return triUnknown, false
+						}
+						// what is it compared with: the Unspecified constant, or the option being modified
+						cmp := "this"
+						if id := lastIdent(other); id != nil {
+							if cst, ok := info.Uses[id].(*types.Const); ok && strings.HasSuffix(cst.Name(), "Unspecified") {
+								cmp = "unspecified"
+							}
+						}
+						eq := st == cmp
+						if bin.Op == token.NEQ {
+							eq = !eq
+						}
+						return triOf(eq), true
+					}
+					out := run(atom)
+					n++
+					want := false
+					switch side {
+					case "file":
+						want = fieldSt == "unspecified" && fileSt != "other" && match
+					case "field":
+						want = (fieldSt == "this" || (fieldSt == "unspecified" && fileSt == "unspecified")) && match
+					}
+					got := "undecided: " + out.Undecided
+					if out.Undecided == "" {
+						got = fmt.Sprint(out.Value == triTrue)
+					}
+					if got != fmt.Sprint(want) {
+						diffs = append(diffs, fmt.Sprintf("file=%s field=%s match=%v: applies=%s want %v", fileSt, fieldSt, match, got, want))
+					}
+				}
+			}
+		}
+		c.Ob(rule, inst, pos, len(diffs) == 0, true, "%s-option consumer evaluated on %d rule shapes; deviations from the scope table: %v", side, n, diffs)
+	}
+	found := 0
+	for _, fr := range p.FuncsOf(pk) {
+		if fr.Decl.Body == nil {
+			continue
+		}
+		ast.Inspect(fr.Decl.Body, func(n ast.Node) bool {
+			switch x := n.(type) {
+			case *ast.RangeStmt:
+				if !isDisablesCall(x.X) {
+					return true
+				}
+				found++
+				evalAll(fr.Decl.Name.Name+"/range-disables", x.Pos(), "file", func(atom func(ast.Expr) (tri, bool)) bfOutcome {
+					return bfEvalLoopBody(info, x.Body, triFalse, atom)
+				})
+			case *ast.CallExpr:
+				if len(x.Args) != 2 || !isDisablesCall(x.Args[0]) {
+					return true
+				}
+				fl, ok := ast.Unparen(x.Args[1]).(*ast.FuncLit)
+				if !ok {
+					return true
+				}
+				found++
+				evalAll(fr.Decl.Name.Name+"/filter-disables", x.Pos(), "field", func(atom func(ast.Expr) (tri, bool)) bfOutcome {
+					return bfEvalFunc(info, fl.Body, atom, func(ast.Expr) (tri, bool) { return triUnknown, false }, func(ast.Expr) (string, bool) { return "", false })
+				})
+			}
+			return true
+		})
+	}
+	if found < 2 {
+		c.Fail(rule, "consumers", token.NoPos, "only %d consumer(s) of Disables() found in bufimagemodify (expected the file-option predicate and the field-option filter)", found)
+	}
 }
